@@ -80,6 +80,10 @@ MAPPINGS: dict[str, dict[str, dict[str, Any]]] = {
         "event_type": dict(key_paths=[P + "attrs.[].key"], key_value=["http.method"], value_paths=["vtop"], value_type="string"),
         "application_name": dict(key_paths=[[P + "attrs.[].key", P + "app"]], key_value=[["svc", None]], value_paths=[["vtop", None]], value_type="string"),
     },
+    "attribute key that begins with a dot": {
+        "event_type": dict(key_paths=[P + "attrs.[].key"], key_value=[".stage"], value_paths=["value.v"], value_type="string"),
+        "job_name": dict(key_paths=[[P + "attrs.[].key", P + "name"]], key_value=[[".stage.owner", None]], value_paths=[["vtop", None]], value_type="string"),
+    },
     "array level sharing its name with the final key": {
         "job_name": dict(key_paths=["items.[].id"], value_type="string"),
         "job_id": dict(key_paths=["items.[].sub.[].items"], value_type="string"),
@@ -436,6 +440,7 @@ def run(tier: str) -> int:
     n, kinds = (3, 3) if tier == "quick" else (4, 4)
     conds = [core.Cond(f"a.record skipping, {n} records, first record kind {k}, per_line={pl}", HARNESS, "check",
                        {"k0": k, "n": n, "kinds": kinds, "per_line": pl}, tmo) for k in range(kinds) for pl in (False, True)]
+    conds.append(core.Cond("a.per-line file with one document and trailing blank lines", HARNESS, "blank_tail", {"kind": "blank"}, tmo))
     conds.append(core.Cond("a.unusual characters inside string leaves (per-line and whole-file)", HARNESS, "separators", {"kind": "separators"}, tmo))
     conds.append(core.Cond("a.twin", HARNESS, "twin", {"k0": 0, "n": 3, "kinds": 3, "per_line": True}, tmo, expect_violation=True))
     return simple.run_conditions(chk, HARNESS, conds)
